@@ -168,7 +168,7 @@ open Reamber.FullLN
 theorem stacked_perm {α} {m m' : MapM α} (hh : m.hits.Perm m'.hits) (hl : m.holds.Perm m'.holds) :
     (stacked m).Perm (stacked m') := by
   unfold stacked
-  exact (hh.map _).append hl
+  exact hh.append hl
 
 /-- a column of a sorted arrangement is determined by the multiset of rows when tied notes are equal -/
 theorem inColumn_sorted_eq (c : Int) {arr₁ arr₂ : List FullLN.Row} (hp : arr₁.Perm arr₂) (s₁ : SortedByOffset arr₁)
